@@ -17,7 +17,8 @@ from . import c05 as zoo
 from . import common
 
 PROP = "C08"
-LEAN_MODULES = ["MiciVerif.Props.C08"]
+LEAN_MODULES = ["MiciVerif.Props.C08", "MiciVerif.Props.C08S"]
+GENERATED = ["system_methods"]
 LEAN_EXTRA = ["MiciVerif.Model.Momentum", "MiciVerif.Model.Constrained", "MiciVerif.Proto"]
 
 COEFFS = [0.0, 1.0, 0.25, 0.5, 0.6, 0.875, 0.999]
@@ -286,10 +287,13 @@ def run(ctx: common.Ctx):
     ]
     cases = []
     per = ctx.n(6, 150)
+    # a broken source-level obligation (src_*_sample_momentum / project_onto_cotangent_space_eq_model over the
+    # regenerated method table) escalates the search for the families that inherit a changed method body
+    _, _, esc_fams = zoo.src_escalation(ctx)
     for fam in zoo.FAMILIES:
         kinds = zoo.EUCLID_METRICS if fam in ("euclid", "gauss", "constr-haus", "constr-gram", "gconstr") else [None]
         for mk in kinds:
-            for _ in range(per if mk is not None else 4 * per):
+            for _ in range((per if mk is not None else 4 * per) * (4 if fam in esc_fams and ctx.quick else 1)):
                 cases.append(gen_case(rng, fam, mk))
     reqs, meta = [], []
     for case in cases:
@@ -388,7 +392,14 @@ LEVEL_TEXT = (
     "CorrelatedMomentumTransition.sample: c = 1 or mom None ⇒ full refresh with one draw, c = 0 ⇒ unchanged and no draw "
     "(correlated_coeff_one/_mom_none/_coeff_zero/_partial, branch_spec). Tied to the code by recovering the "
     "implementation's linear map L with basis-vector draws for every system class and metric type and comparing with the "
-    "exact projected metric of the model."
+    "exact projected metric of the model. Source level (Props/C08S): the bodies of sample_momentum and "
+    "project_onto_cotangent_space (and gram / inv_gram / jacob_constr_inner_product) in systems.py are re-translated on "
+    "every run (tools/extractors/system_methods.py -> Generated/SystemMethods.lean); src_<Class>_sample_momentum_eq_model "
+    "and src_<Class>_project_onto_cotangent_space_eq_model prove that evaluating the generated bodies - super() and "
+    "self.m(state) calls resolved through the generated MRO - gives metric.sqrt @ z, metric(state).sqrt @ z, "
+    "project J N G^-1 (sqrt @ z) resp. Constrained.project for every environment; src_*_sample_momentum_cotangent, "
+    "src_*_project_cotangent, src_*_momentum_cov restate J M^-1 p = 0, idempotence of the projection and the (projected) "
+    "second moment for the source text."
 )
 LEVEL_NOTE = (
     "Trusted: Lean kernel, axioms {propext, Classical.choice, Quot.sound}; the mathematical fact that a zero-mean "
@@ -399,5 +410,6 @@ LEVEL_NOTE = (
 )
 TECHNIQUE = (
     "Lean 4 theorems (matrix identities, finite-sample second moments) + scripted-generator recovery of the "
-    "implementation's linear map compared with the exact model + direct covariance / coefficient oracles"
+    "implementation's linear map compared with the exact model + direct covariance / coefficient oracles + "
+    "source-to-term translation of the momentum / projection method bodies with machine-checked equality to the model"
 )
